@@ -97,7 +97,7 @@ def dayofyear(days):
         Day of year
     """
     try:
-        doy = days.dayofyear.values
+        doy = days.dayofyear.values.copy()
         yy = days.year.values
         mm = days.month.values
     except AttributeError:
